@@ -15,6 +15,20 @@ def lang_query_item_filter(key, _):
 
 
 def strip_lang_subdomains_from_hostname(hostname):
+    # NOTE: looping because what remains can start with a language again
+    # ("de.bo.nordland.no" and "bo.nordland.no" must end up the same)
+    while hostname.count(".") > 1:
+        stripped = strip_lang_subdomain_from_hostname(hostname)
+
+        if stripped == hostname:
+            break
+
+        hostname = stripped
+
+    return hostname
+
+
+def strip_lang_subdomain_from_hostname(hostname):
     if hostname.count(".") > 1:
         subdomain, remaining_hostname = hostname.split(".", 1)
         if len(subdomain) == 5 and "-" in subdomain:
